@@ -289,6 +289,12 @@ def rejection_jobs():
             ('entry-for-other-version/unknown-method', yaml_for(['acme.sel.v2.Main.NoSuchRpc'], False, version='acme.sel.v2')),
             ('valid-entry+entry-for-other-version', yaml_for([f'{P}.Main.GetA'], False,
                                                              extra='  - version: acme.sel.v2\n    python_settings:\n      common:\n        selective_gapic_generation:\n          methods:\n          - acme.sel.v2.Main.NoSuchRpc\n')),
+            # the mirror image (wave 7): the faulty entry comes first, a valid entry for this version is last
+            ('entry-for-other-version+valid-entry', yaml_for(['acme.sel.v2.Main.NoSuchRpc'], False, version='acme.sel.v2',
+                                                             extra=f'  - version: {P}\n    python_settings:\n      common:\n        selective_gapic_generation:\n          methods:\n          - {P}.Main.GetA\n')),
+            ('unknown-method-entry+two-valid-entries-later', yaml_for([f'{P}.Main.NoSuchRpc'], False, version='acme.sel.v1beta',
+                                                             extra=f'  - version: acme.other.v1\n    python_settings:\n      common:\n        selective_gapic_generation:\n          methods: []\n'
+                                                                   f'  - version: {P}\n    python_settings:\n      common:\n        selective_gapic_generation:\n          methods:\n          - {P}.Main.GetA\n')),
             ('duplicate-version', yaml_for([f'{P}.Main.GetA'], False,
                                            extra=f'  - version: {P}\n    python_settings:\n      common:\n        selective_gapic_generation:\n          methods:\n          - {P}.Main.GetB\n')),
     ):
